@@ -91,9 +91,11 @@ def stop_root(analysis: Analysis, spec) -> dict:
         saves = [i for i, e in enumerate(s.events) if e.kind == "opaque" and e.name == "persistence:Persistence.save_sensors"]
         cancels = [i for i, e in enumerate(s.events) if e.kind in ("call", "await") and isinstance(e.recv, V) and e.recv.key() == ckey]
         disconnects = [i for i, e in enumerate(s.events) if e.kind == "opaque" and e.name.endswith(".disconnect")]
+        stops = [i for i, e in enumerate(s.events) if e.kind == "call" and e.name.endswith("Event.set")]
+        task_cancels = [i for i, e in enumerate(s.events) if e.kind == "call" and e.name == "asyncio.Task.cancel"]
         on = ("truthy", pkey) in s.facts
         has_cancel = ("notnone", ckey) in s.facts or ("truthy", ckey) in s.facts
-        rows.append({"kind": kind, "on": on, "saves": saves, "cancels": cancels, "has_cancel": has_cancel, "disconnects": disconnects, "witness": describe_path(out, 20), "exc": v.cls.__name__ if kind == "raise" else None})
+        rows.append({"kind": kind, "on": on, "saves": saves, "cancels": cancels, "has_cancel": has_cancel, "disconnects": disconnects, "stops": stops, "task_cancels": task_cancels, "witness": describe_path(out, 20), "exc": v.cls.__name__ if kind == "raise" else None})
     return {"ctx": ctx.name, "qual": m.qual, "rows": rows}
 
 
